@@ -24,8 +24,11 @@ import (
 	"github.com/cossacklabs/acra/encryptor/base/config"
 	encmysql "github.com/cossacklabs/acra/encryptor/mysql"
 	encpg "github.com/cossacklabs/acra/encryptor/postgresql"
+	"github.com/cossacklabs/acra/hmac"
 	hqmysql "github.com/cossacklabs/acra/hmac/decryptor/mysql"
 	hqpg "github.com/cossacklabs/acra/hmac/decryptor/postgresql"
+	"github.com/cossacklabs/acra/pseudonymization"
+	"github.com/cossacklabs/acra/pseudonymization/storage"
 	"github.com/cossacklabs/acra/sqlparser"
 
 	"verifharness/internal/core"
@@ -227,7 +230,9 @@ func bitsOf(c *cond, rows []row, params [][]byte) string {
 
 const nCols = 4
 
-func schemaYAML(searchable map[cellKey]bool, kind string, typed bool) string {
+// column kinds of the encryptor configuration: 's' searchable, 't' consistently tokenized (token_type str),
+// 'e' encrypted only; any other column of the table is plain
+func schemaYAML(kinds map[cellKey]byte, kind string, typed bool) string {
 	envl := "acrastruct"
 	if kind == "block" {
 		envl = "acrablock"
@@ -241,16 +246,24 @@ func schemaYAML(searchable map[cellKey]bool, kind string, typed bool) string {
 		}
 		first := true
 		for c := 0; c < nCols; c++ {
-			if !searchable[cellKey{t, c}] {
+			k := kinds[cellKey{t, c}]
+			if k == 0 {
 				continue
 			}
 			if first {
 				b.WriteString("    encrypted:\n")
 				first = false
 			}
-			fmt.Fprintf(&b, "      - column: c%d\n        searchable: true\n        crypto_envelope: %s\n", c, envl)
-			if typed {
-				b.WriteString("        data_type: str\n")
+			switch k {
+			case 's':
+				fmt.Fprintf(&b, "      - column: c%d\n        searchable: true\n        crypto_envelope: %s\n", c, envl)
+				if typed {
+					b.WriteString("        data_type: str\n")
+				}
+			case 't':
+				fmt.Fprintf(&b, "      - column: c%d\n        token_type: str\n        consistent_tokenization: true\n", c)
+			case 'e':
+				fmt.Fprintf(&b, "      - column: c%d\n        crypto_envelope: %s\n", c, envl)
 			}
 		}
 	}
@@ -259,19 +272,35 @@ func schemaYAML(searchable map[cellKey]bool, kind string, typed bool) string {
 
 var schemaCache = map[string]config.TableSchemaStore{}
 
-func schemaFor(colsTok, kind string, typed, mysql bool) (config.TableSchemaStore, map[cellKey]bool) {
-	searchable := map[cellKey]bool{}
+// parseKinds reads the column token `_` | `t.c;t.c:t;t.c:e` (no suffix = searchable).
+func parseKinds(colsTok string) map[cellKey]byte {
+	kinds := map[cellKey]byte{}
 	if colsTok != "_" {
 		for _, p := range strings.Split(colsTok, ";") {
+			k := byte('s')
+			if i := strings.IndexByte(p, ':'); i >= 0 {
+				k, p = p[i+1], p[:i]
+			}
 			tc := strings.Split(p, ".")
-			searchable[cellKey{core.Atoi(tc[0]), core.Atoi(tc[1])}] = true
+			kinds[cellKey{core.Atoi(tc[0]), core.Atoi(tc[1])}] = k
+		}
+	}
+	return kinds
+}
+
+func schemaFor(colsTok, kind string, typed, mysql bool) (config.TableSchemaStore, map[cellKey]bool) {
+	kinds := parseKinds(colsTok)
+	searchable := map[cellKey]bool{}
+	for k, v := range kinds {
+		if v == 's' {
+			searchable[k] = true
 		}
 	}
 	key := fmt.Sprintf("%s/%s/%v/%v", colsTok, kind, typed, mysql)
 	if s, ok := schemaCache[key]; ok {
 		return s, searchable
 	}
-	s, err := config.MapTableSchemaStoreFromConfig([]byte(schemaYAML(searchable, kind, typed)), mysql)
+	s, err := config.MapTableSchemaStoreFromConfig([]byte(schemaYAML(kinds, kind, typed)), mysql)
 	if err != nil {
 		panic("harness: schema: " + err.Error())
 	}
@@ -283,11 +312,11 @@ func schemaFor(colsTok, kind string, typed, mysql bool) (config.TableSchemaStore
 
 type session struct{ data map[string]interface{} }
 
-func (s *session) Context() context.Context        { return context.Background() }
-func (s *session) ClientConnection() net.Conn      { return nil }
-func (s *session) DatabaseConnection() net.Conn    { return nil }
-func (s *session) ProtocolState() interface{}      { return nil }
-func (s *session) SetProtocolState(interface{})    {}
+func (s *session) Context() context.Context     { return context.Background() }
+func (s *session) ClientConnection() net.Conn   { return nil }
+func (s *session) DatabaseConnection() net.Conn { return nil }
+func (s *session) ProtocolState() interface{}   { return nil }
+func (s *session) SetProtocolState(interface{}) {}
 func (s *session) GetData(k string) (interface{}, bool) {
 	v, ok := s.data[k]
 	return v, ok
@@ -316,12 +345,13 @@ type variant struct {
 	kind      string
 	crossJoin bool // FROM t0, t1 instead of JOIN
 	hexNum    bool // MySQL: 0x… instead of X'…'
+	named     bool // MySQL: placeholders spelled :vN (as the tokenizer numbers `?`) – always when one is used twice
 }
 
 func parseVariant(s string) variant {
 	n := core.AtoU64(s)
 	b := func(i uint) bool { return n>>i&1 == 1 }
-	v := variant{n: n, stmt: int(n % 5), alias: b(8), qualify: b(9), textLit: b(10), neBang: b(11), binParams: b(12), bindOrig: b(13), typed: b(14), crossJoin: b(16), hexNum: b(17)}
+	v := variant{n: n, stmt: int(n % 5), alias: b(8), qualify: b(9), textLit: b(10), neBang: b(11), binParams: b(12), bindOrig: b(13), typed: b(14), crossJoin: b(16), hexNum: b(17), named: b(18)}
 	v.kind = "struct"
 	if b(15) {
 		v.kind = "block"
@@ -573,17 +603,34 @@ func pgUnbound(bv base.BoundValue) []byte {
 
 func listStr(bs [][]byte) string { return env.List(bs) }
 
+type pgObserver interface {
+	OnQuery(ctx context.Context, query encpg.OnQueryObject) (encpg.OnQueryObject, bool, error)
+	OnBind(ctx context.Context, statement *pg_query.ParseResult, values []base.BoundValue) ([]base.BoundValue, bool, error)
+}
+
 // queryPG: the op body for dialect pg. Returns the canonical result line.
 func queryPG(v variant, hk string, kv *env.KV, colsTok string, c *cond, params [][]byte, rows []row) string {
 	ks := store(hk, kv)
 	schema, _ := schemaFor(colsTok, v.kind, v.typed, config.UsePostgreSQL)
 	hq := hqpg.NewHashQuery(ks, schema, crypto.NewRegistryHandler(ks))
+	return runPG(v, []pgObserver{hq}, c, params, rows)
+}
+
+// runPG sends the statement and its bound values through the observers in order, as the proxy's
+// ArrayQueryObservableManager does (each observer sees what the previous one produced).
+func runPG(v variant, observers []pgObserver, c *cond, params [][]byte, rows []row) string {
 	ctx := queryCtx()
 	two := maxTable(c) > 0
 	sql := statement(v, c, pgCond(v, c, two))
-	obj, _, err := hq.OnQuery(ctx, encpg.NewOnQueryObjectFromQuery(sql))
-	if err != nil {
-		return "err-query"
+	obj := encpg.NewOnQueryObjectFromQuery(sql)
+	for _, o := range observers {
+		n, changed, err := o.OnQuery(ctx, obj)
+		if err != nil {
+			return "err-query"
+		}
+		if changed {
+			obj = n
+		}
 	}
 	text, err := obj.Query()
 	if err != nil {
@@ -605,12 +652,17 @@ func queryPG(v variant, hk string, kv *env.KV, colsTok string, c *cond, params [
 			panic("harness: generated statement does not parse: " + sql)
 		}
 	}
-	nv, _, err := hq.OnBind(ctx, bindStmt, bvs)
-	if err != nil {
-		return "err-bind " + dc.String()
+	for _, o := range observers {
+		nv, changed, err := o.OnBind(ctx, bindStmt, bvs)
+		if err != nil {
+			return "err-bind " + dc.String()
+		}
+		if changed {
+			bvs = nv
+		}
 	}
 	var out [][]byte
-	for _, b := range nv {
+	for _, b := range bvs {
 		out = append(out, pgUnbound(b))
 	}
 	return fmt.Sprintf("ok %s %s %s", dc.String(), listStr(out), bitsOf(dc, rows, out))
@@ -638,9 +690,36 @@ func myOperand(v variant, o *operand, two bool) string {
 		}
 		return lit
 	case 'P', 'Q':
+		if v.named {
+			return fmt.Sprintf(":v%d", o.i+1)
+		}
 		return "?"
 	}
 	return "lower('x')"
+}
+
+// sharedParam: is some placeholder index used by more than one operand
+func sharedParam(c *cond) bool {
+	seen := map[int]bool{}
+	shared := false
+	var walk func(c *cond)
+	walk = func(c *cond) {
+		if c.a != nil {
+			walk(c.a)
+			walk(c.b)
+			return
+		}
+		for _, o := range []*operand{c.l, c.r} {
+			if o.kind == 'P' || o.kind == 'Q' {
+				if seen[o.i] {
+					shared = true
+				}
+				seen[o.i] = true
+			}
+		}
+	}
+	walk(c)
+	return shared
 }
 
 func myCond(v variant, c *cond, two bool) string {
@@ -750,26 +829,52 @@ func myWhere(v variant, st sqlparser.Statement, two bool) sqlparser.Expr {
 	panic("harness: unexpected statement kind")
 }
 
+type myObserver interface {
+	OnQuery(ctx context.Context, query encmysql.OnQueryObject) (encmysql.OnQueryObject, bool, error)
+	OnBind(ctx context.Context, statement sqlparser.Statement, values []base.BoundValue) ([]base.BoundValue, bool, error)
+}
+
 func queryMySQL(v variant, hk string, kv *env.KV, colsTok string, c *cond, params [][]byte, rows []row) string {
 	ks := store(hk, kv)
 	schema, _ := schemaFor(colsTok, v.kind, false, config.UseMySQL)
 	hq := hqmysql.NewHashQuery(ks, schema, crypto.NewRegistryHandler(ks))
+	return runMySQL(v, []myObserver{hq}, c, params, rows)
+}
+
+func runMySQL(v variant, observers []myObserver, c *cond, params [][]byte, rows []row) string {
 	ctx := queryCtx()
 	two := maxTable(c) > 0
 	vv := v
+	if sharedParam(c) {
+		vv.named = true // `?` cannot name a parameter twice
+	}
 	if vv.stmt == 1 || vv.stmt == 2 {
 		vv.alias = false // UPDATE/DELETE … AS alias is not MySQL syntax the parser takes
 	}
 	sql := statement(vv, c, myCond(vv, c, two))
 	parser := sqlparser.New(sqlparser.ModeDefault)
-	obj, _, err := hq.OnQuery(ctx, encmysql.NewOnQueryObjectFromQuery(sql, parser))
-	if err != nil {
-		return "err-query"
+	obj := encmysql.NewOnQueryObjectFromQuery(sql, parser)
+	for _, o := range observers {
+		n, changed, err := o.OnQuery(ctx, obj)
+		if err != nil {
+			return "err-query"
+		}
+		if changed {
+			obj = n
+		}
 	}
 	text := obj.Query()
 	st, err := parser.Parse(text)
 	if err != nil {
 		panic("harness: the rewritten statement does not parse: " + text + ": " + err.Error())
+	}
+	if vv.named {
+		// the serialiser prints every placeholder as `?`, so the text of a rewritten statement numbers them by
+		// position again; `:vN` is how the tokenizer names `?` internally, no MySQL client can send it – the
+		// named spelling only serves to reach OnBind with one placeholder listed twice: read the tree back
+		if st, err = obj.Statement(); err != nil {
+			panic("harness: rewritten statement: " + err.Error())
+		}
 	}
 	dc := myReadCond(myWhere(vv, st, two))
 	var bvs []base.BoundValue
@@ -782,19 +887,84 @@ func queryMySQL(v variant, hk string, kv *env.KV, colsTok string, c *cond, param
 			panic("harness: generated statement does not parse: " + sql)
 		}
 	}
-	nv, _, err := hq.OnBind(ctx, bindStmt, bvs)
-	if err != nil {
-		return "err-bind " + dc.String()
+	for _, o := range observers {
+		nv, changed, err := o.OnBind(ctx, bindStmt, bvs)
+		if err != nil {
+			return "err-bind " + dc.String()
+		}
+		if changed {
+			bvs = nv
+		}
 	}
 	var out [][]byte
-	for _, b := range nv {
+	for _, b := range bvs {
 		d, _ := b.GetData(nil)
 		out = append(out, d)
 	}
 	return fmt.Sprintf("ok %s %s %s", dc.String(), listStr(out), bitsOf(dc, rows, out))
 }
 
+// ---- both observers of the proxies: consistent tokenization, then searchable encryption ----
+
+// chain: the statement goes through the tokenization observer and then the searchable-encryption
+// observer (the order of proxy.go), over rows stored the way the proxy stores them: a searchable column
+// holds hash ‖ envelope, a consistently tokenized column holds the token the REAL tokenizer (memory token
+// store) issues for the plaintext. Implementation and oracle only – the token values are random.
+func chain(dialect string, v variant, hk string, kv *env.KV, colsTok string, c *cond, params [][]byte, plainRows []row) string {
+	ks := store(hk, kv)
+	mysql := dialect == "mysql"
+	schema, _ := schemaFor(colsTok, v.kind, v.typed && !mysql, mysql)
+	kinds := parseKinds(colsTok)
+	st, err := storage.NewMemoryTokenStorage()
+	if err != nil {
+		panic("harness: " + err.Error())
+	}
+	pa, err := pseudonymization.NewPseudoanonymizer(st)
+	if err != nil {
+		panic("harness: " + err.Error())
+	}
+	dt, _ := pseudonymization.NewDataTokenizer(pa)
+	te, _ := pseudonymization.NewTokenEncryptor(dt)
+	reg := crypto.NewRegistryHandler(ks)
+	se, err := hmac.NewSearchableEncryptor(ks, reg, reg)
+	if err != nil {
+		panic("harness: " + err.Error())
+	}
+	var rows []row
+	for _, pr := range plainRows {
+		sr := row{}
+		for k, val := range pr {
+			setting := schema.GetTableSchema(fmt.Sprintf("t%d", k.tbl)).GetColumnEncryptionSettings(fmt.Sprintf("c%d", k.col))
+			switch kinds[k] {
+			case 's':
+				x, err := se.EncryptWithClientID([]byte(clientID), val, setting)
+				if err != nil {
+					return "err-store"
+				}
+				sr[k] = x
+			case 't':
+				x, err := te.EncryptWithClientID([]byte(clientID), val, setting)
+				if err != nil {
+					return "err-store"
+				}
+				sr[k] = x
+			default:
+				sr[k] = val
+			}
+		}
+		rows = append(rows, sr)
+	}
+	if mysql {
+		return runMySQL(v, []myObserver{pseudonymization.NewMySQLTokenizeQuery(schema, te), hqmysql.NewHashQuery(ks, schema, reg)}, c, params, rows)
+	}
+	return runPG(v, []pgObserver{pseudonymization.NewPostgresqlTokenizeQuery(schema, te), hqpg.NewHashQuery(ks, schema, reg)}, c, params, rows)
+}
+
 func init() {
+	// chain dialect hkey [kv ×4] cols cond params PLAIN rows variant → like `query`, through both observers
+	core.Register("C09.chain", func(a []string) string {
+		return chain(a[0], parseVariant(a[10]), a[1], env.ParseKV(a[2:6]), a[6], parseCond(a[7]), env.ParseList(a[8]), parseRows(a[9]))
+	})
 	// query dialect hkey [kv ×4] searchableCols cond params rows variant
 	// (the model ignores `variant`: the spelling of the statement must not matter)
 	core.Register("C09.query", func(a []string) string {
@@ -809,4 +979,3 @@ func init() {
 		return queryMySQL(v, a[1], kv, a[6], c, params, rows)
 	})
 }
-
